@@ -324,62 +324,5 @@ macro "leaf" "[" ts:Lean.Parser.Tactic.simpLemma,* "]" : tactic =>
 macro "post_tac" "[" ts:Lean.Parser.Tactic.simpLemma,* "]" : tactic =>
   `(tactic| (constructor <;> simp [pduFields, isFc, set_apply, $ts,*]))
 
-theorem sf_branch (env : Env) (d : Bytes) (hr : Ready env d) (hn : 0 < d.length) (h0 : byteAt d 0 / 16 = 0) :
-    Outcome env 0 (execBlock noMeths env sfBranch) (decodeBody d) := by
-  have hb0 := byteAt_lt d 0
-  have hb1 := byteAt_lt d 1
-  simp only [sfBranch, thenOf, dispatchStmt, bhead, bdrop, Src.PDU_init]
-  by_cases hlp : byteAt d 0 % 16 = 0
-  · by_cases h2 : d.length < 2
-    · leaf [hr.md, hr.dl]
-    · by_cases hl0 : byteAt d 1 = 0
-      · leaf [hr.md, hr.dl]
-      · by_cases hl : byteAt d 1 > d.length - 2
-        · leaf [hr.md, hr.dl]
-        · leaf [hr.md, hr.dl]
-          exact ⟨rfl, _, rfl, by post_tac []⟩
-  · by_cases hl : byteAt d 0 % 16 > d.length - 1
-    · leaf [hr.md, hr.dl]
-    · leaf [hr.md, hr.dl]
-      exact ⟨rfl, _, rfl, by post_tac [hr.es]⟩
-
-theorem ff_branch (env : Env) (d : Bytes) (hr : Ready env d) (hn : 0 < d.length) (h0 : byteAt d 0 / 16 = 1) :
-    Outcome env 1 (execBlock noMeths env ffBranch) (decodeBody d) := by
-  have hb0 := byteAt_lt d 0
-  have hb1 := byteAt_lt d 1
-  have hb3 := byteAt_lt d 3
-  have hb4 := byteAt_lt d 4
-  have hb5 := byteAt_lt d 5
-  simp only [ffBranch, ffStmt, elseOf, thenOf, dispatchStmt, bhead, bdrop, Src.PDU_init]
-  by_cases h2 : d.length < 2
-  · leaf [hr.md, hr.dl]
-  · by_cases hlp : byteAt d 0 % 16 * 256 + byteAt d 1 = 0
-    · by_cases h6 : d.length < 6
-      · leaf [hr.md, hr.dl]
-      · leaf [hr.md, hr.dl]
-        exact ⟨rfl, _, rfl, by post_tac []⟩
-    · leaf [hr.md, hr.dl]
-      exact ⟨rfl, _, rfl, by post_tac [hr.es]⟩
-
-theorem cf_branch (env : Env) (d : Bytes) (hr : Ready env d) (hn : 0 < d.length) (h0 : byteAt d 0 / 16 = 2) :
-    Outcome env 2 (execBlock noMeths env cfBranch) (decodeBody d) := by
-  simp only [cfBranch, cfStmt, ffStmt, elseOf, thenOf, dispatchStmt, bhead, bdrop, Src.PDU_init]
-  leaf [hr.md, hr.dl]
-  exact ⟨rfl, _, rfl, by post_tac []⟩
-
-theorem fc_branch (env : Env) (d : Bytes) (hr : Ready env d) (hn : 0 < d.length) (h0 : byteAt d 0 / 16 = 3) :
-    Outcome env 3 (execBlock noMeths env fcBranch) (decodeBody d) := by
-  simp only [fcBranch, fcStmt, cfStmt, ffStmt, elseOf, thenOf, dispatchStmt, bhead, bdrop, Src.PDU_init]
-  by_cases h3 : d.length < 3
-  · leaf [hr.md, hr.dl]
-  · by_cases hfs : byteAt d 0 % 16 ≥ 3
-    · leaf [hr.md, hr.dl]
-    · by_cases hs1 : byteAt d 2 ≤ 127
-      · leaf [hr.md, hr.dl, hr.ss]
-        exact ⟨rfl, _, rfl, by post_tac [float_beq_none]⟩
-      · by_cases hs2 : 241 ≤ byteAt d 2 ∧ byteAt d 2 ≤ 249
-        · leaf [hr.md, hr.dl, hr.ss]
-          exact ⟨rfl, _, rfl, by post_tac [float_beq_none]⟩
-        · leaf [hr.md, hr.dl, hr.ss]
 
 end Isotp.PyAgree
